@@ -1,6 +1,8 @@
 package simcore
 
 import (
+	"fmt"
+	"runtime/debug"
 	"time"
 )
 
@@ -11,7 +13,7 @@ func ExecOnce(e Engine, p *Plan, props map[string]bool, known map[string]bool, k
 	run.KeepTrace = keepTrace
 	defer func() {
 		if x := recover(); x != nil {
-			harnessErr = x
+			harnessErr = fmt.Sprintf("%v\n%s", x, debug.Stack())
 		}
 	}()
 	e.Execute(run)
